@@ -246,19 +246,28 @@ func (u *CDX) licenseChoicesToLicenseList(lcs *cdx.Licenses) []string {
 		// TODO(license): This should handle licenses without an ID and
 		// create custom licenses or another solution that captures the
 		// full cuistom license text.
-		if lc.Expression == "" && lc.License.ID == "" {
+		if lc.Expression == "" && licenseChoiceID(lc) == "" {
 			continue
 		}
 
 		if lc.Expression != "" {
 			list = append(list, lc.Expression)
 		} else {
-			list = append(list, lc.License.ID)
+			list = append(list, licenseChoiceID(lc))
 		}
 		return list
 	}
 
 	return list
+}
+
+// licenseChoiceID returns the license identifier of a license choice, or an
+// empty string when the choice carries no license object.
+func licenseChoiceID(lc cdx.LicenseChoice) string {
+	if lc.License == nil {
+		return ""
+	}
+	return lc.License.ID
 }
 
 // licenseChoicesToLicenseString takes the component license data and computes
@@ -275,7 +284,7 @@ func (u *CDX) licenseChoicesToLicenseString(lcs *cdx.Licenses) string {
 		// TODO(license): This should handle licenses without an ID and
 		// create custom licenses or another solution that captures the
 		// full cuistom license text.
-		if lc.Expression == "" && lc.License.ID == "" {
+		if lc.Expression == "" && licenseChoiceID(lc) == "" {
 			continue
 		}
 		if s != "" {
@@ -286,7 +295,7 @@ func (u *CDX) licenseChoicesToLicenseString(lcs *cdx.Licenses) string {
 		if lc.Expression != "" {
 			newLicense = lc.Expression
 		} else {
-			newLicense = lc.License.ID
+			newLicense = licenseChoiceID(lc)
 		}
 		if s == "" {
 			s = newLicense
